@@ -774,6 +774,12 @@ func (s *scanner) ReadStreamData(dict Dict) (stm *Stream, err error) {
 	if hasLength {
 		if n, err := s.getInt(lengthObj); err == nil && n >= 0 {
 			declared = int64(n)
+		} else if IsReadError(err) && !errors.Is(err, io.EOF) {
+			// an I/O failure while fetching an indirect /Length is not a
+			// defect of the file: recovering by scanning for endstream
+			// would hide it, and can return different data.  (io.EOF is
+			// what reading the length object of a truncated file gives.)
+			return nil, err
 		}
 	}
 
@@ -812,8 +818,18 @@ func (s *scanner) ReadStreamData(dict Dict) (stm *Stream, err error) {
 		crypt = &filterCrypt{enc: s.enc, ref: s.encRef}
 	}
 
+	// The two helpers below probe the file directly and have no way to
+	// report a failing read; note it here, so that an I/O error is not
+	// mistaken for a wrong /Length (which would silently move the end of
+	// the stream data).
+	probe := &probeReaderAt{r: origReader}
+	atEnd := declared >= 0 && endstreamAt(probe, start+declared)
+	if probe.err != nil {
+		return nil, probe.err
+	}
+
 	var l int64
-	if declared >= 0 && endstreamAt(origReader, start+declared) {
+	if atEnd {
 		l = declared
 		err = s.Discard(l)
 		if err != nil {
@@ -837,7 +853,10 @@ func (s *scanner) ReadStreamData(dict Dict) (stm *Stream, err error) {
 			return nil, err
 		}
 		l = eolPos - start
-		l = trimTrailingEOL(origReader, start, l)
+		l = trimTrailingEOL(probe, start, l)
+		if probe.err != nil {
+			return nil, probe.err
+		}
 	}
 
 	// /Length describes one serialisation of the stream rather than the
@@ -854,6 +873,21 @@ func (s *scanner) ReadStreamData(dict Dict) (stm *Stream, err error) {
 		length: l,
 		crypt:  crypt,
 	}, nil
+}
+
+// probeReaderAt records the first error, other than io.EOF, returned by the
+// underlying reader.
+type probeReaderAt struct {
+	r   io.ReaderAt
+	err error
+}
+
+func (p *probeReaderAt) ReadAt(buf []byte, off int64) (int, error) {
+	n, err := p.r.ReadAt(buf, off)
+	if err != nil && err != io.EOF && p.err == nil {
+		p.err = err
+	}
+	return n, err
 }
 
 // trimTrailingEOL returns length with any single trailing \n, \r, or
